@@ -111,7 +111,8 @@ def make_path(steps, spelling):
 
 
 def gen_value(rng):
-    k = rng.choice(['scalar', 'scalar', 'opaque', 'list', 'dict', 'spec', 'texpr', 'selfref', 'tleaves', 'subclass-dict', 'subclass-list'])
+    k = rng.choice(['scalar', 'scalar', 'opaque', 'list', 'dict', 'spec', 'texpr', 'selfref', 'tleaves', 'subclass-dict', 'subclass-list',
+                    'tuple-tleaves', 'frozenset-tleaves', 'plain-tuple'])
     return k
 
 
@@ -148,6 +149,13 @@ def make_value(kind, rng_state_val, target):
         a = [1]; a.append(a)
         b = [1]; b.append(b)
         return a, b
+    if kind == 'tuple-tleaves':
+        # T / Spec leaves are evaluated whatever the outermost container of the value is: a tuple, a tuple in a tuple ...
+        return (T.__('class__').__('name__'), ('lit', Spec(lambda t: type(t).__name__))), (tname, ('lit', tname))
+    if kind == 'frozenset-tleaves':
+        return frozenset([T.__('class__').__('name__'), 'lit']), frozenset([tname, 'lit'])
+    if kind == 'plain-tuple':
+        return (1, ('two', None)), (1, ('two', None))
     if kind == 'tleaves':
         return {'root': T.__('class__').__('name__'), 'lst': [T.__('class__').__('name__'), 'lit']}, {'root': tname, 'lst': [tname, 'lit']}
     raise AssertionError(kind)
